@@ -141,6 +141,8 @@ def compare_obs(mo, io, tol=1e-9, keys=None, traj_tol=1e-7):
         return ["SKIP divzero"]
     if mo.get("error") == "model-timeout":
         return ["SKIP model-timeout"]
+    if str(io.get("error", "")).startswith("domain: time limit"):
+        return ["SKIP impl-time-limit"]
     if merr or ierr:
         if merr != ierr:
             diffs.append("raise mismatch: model %s / impl %s" % (mo.get("error"), io.get("error")))
